@@ -65,6 +65,36 @@ Theorem C10_canonical_unique : forall a b, canonical a -> canonical b ->
   (denote a == denote b)%Q -> a = b.
 Proof. exact canonical_unique. Qed.
 
+(* integer division family: exact for integers of any magnitude (fixnum and bignum operands in every
+   combination), division by zero is an error value, never a panic *)
+Theorem C10_quotient_exact : forall a b, canonical a -> canonical b -> is_integer a -> is_integer b ->
+  if (numer b =? 0)%Z then quotient a b = ErrDivZero
+  else exists v, quotient a b = Ok v /\ canonical v /\ is_integer v /\ numer v = Z.quot (numer a) (numer b).
+Proof. exact quotient_spec. Qed.
+
+Theorem C10_remainder_exact : forall a b, canonical a -> canonical b -> is_integer a -> is_integer b ->
+  if (numer b =? 0)%Z then remainder a b = ErrDivZero
+  else exists v, remainder a b = Ok v /\ canonical v /\ is_integer v /\ numer v = Z.rem (numer a) (numer b).
+Proof. exact remainder_spec. Qed.
+
+Theorem C10_modulo_exact : forall a b, canonical a -> canonical b -> is_integer a -> is_integer b ->
+  if (numer b =? 0)%Z then modulo a b = ErrDivZero
+  else exists v, modulo a b = Ok v /\ canonical v /\ is_integer v /\ numer v = Z.modulo (numer a) (numer b).
+Proof. exact modulo_spec. Qed.
+
+(* gcd as the library defines it (Euclid over modulo) is the mathematical gcd; the fuel bound is explicit *)
+Theorem C10_gcd_exact : forall fuel a b, canonical a -> canonical b -> is_integer a -> is_integer b ->
+  (Z.to_nat (Z.abs (numer b)) < fuel)%nat ->
+  exists v, gcd_loop fuel a b = Some (Ok v) /\ canonical v /\ is_integer v /\
+            numer v = Z.gcd (numer a) (numer b).
+Proof. exact gcd_loop_spec. Qed.
+
+Theorem C10_exact_integer_sqrt : forall a, canonical a -> is_integer a -> (0 <= numer a)%Z ->
+  exists s r, exact_integer_sqrt a = Some (s, r) /\ canonical s /\ canonical r /\
+              (numer s * numer s + numer r = numer a)%Z /\
+              (numer s * numer s <= numer a < (numer s + 1) * (numer s + 1))%Z /\ (0 <= numer s)%Z.
+Proof. exact exact_integer_sqrt_spec. Qed.
+
 (* non-vacuity: the hypotheses are met by boundary values of every representation *)
 Example C10_nonvacuous :
   canonical (IntV isize_max) /\ canonical (BigNum (isize_max + 1)) /\
